@@ -103,6 +103,17 @@ def main():
                     dist[kk] = dist.get(kk, 0) + 1
                 if len(samples) < 3 and k is not None:
                     samples.append({"script": [x[:300] for x in lines[:40]], "impl_trace": [x[:300] for x in it[:40]]})
+            # environment independence: the same scripts under other environments must give the same traces
+            for (ename, env, extra, prefix) in getattr(mod, "ENVS", []):
+                chunk = getattr(mod, "CHUNK", 400)
+                for k in range(0, len(scripts), chunk):
+                    part = scripts[k:k + chunk]
+                    i2 = runner.run_impl_only(part, env=env, extra=extra, prefix=prefix)
+                    for sid, lines in part:
+                        d = vlib.first_diff(i.get(sid, []), i2.get(sid, []))
+                        if d:
+                            oracle_fail.append((sid, lines, "c01/env/" + ename, "trace under %s differs at line %d: %s | %s" % (ename, d[0], d[1][:100], d[2][:100])))
+                dist["env:" + ename] = len(scripts)
         except Exception as e:  # noqa
             corr_broken = "run: %s" % e
             say(traceback.format_exc()[-3000:])
